@@ -16,9 +16,9 @@ import (
 
 func init() {
 	Registry["C18"] = Spec{
-		Fn:    c18,
-		Level: "exploration",
-		Rule: "pairs (block schema, target list) over a pool of ~120 types (every catalogue type plus boxed compositions): equal, permuted, renamed, extra/missing column, one type swapped for every other pool type (thorough: all ordered pairs), zero-row header blocks with/without targets, blank target names, sequences of 2..4 blocks with changing schemas against the same targets, typed / single ResultColumn / AutoResult targets, inferable targets (Enum, DateTime zone, DateTime64 precision/zone, Array/Nullable/Map/Tuple of them). Blocks are reference-encoded with per-column unique values. Oracle: reference compatibility relation (compatible -> decodes to the block's values; incompatible -> error naming the column/index; unspecified -> no panic, no foreign data); after any failure every target holds only rows of its own matching column. Non-trivial = >=2 columns or a parameterised type; distinct = (schema, targets, mutation)",
+		Fn:          c18,
+		Level:       "exploration",
+		Rule:        "pairs (block schema, target list) over a pool of ~120 types (every catalogue type plus boxed compositions): equal, permuted, renamed, extra/missing column, one type swapped for every other pool type (thorough: all ordered pairs), zero-row header blocks with/without targets, blank target names, sequences of 2..4 blocks with changing schemas against the same targets, typed / single ResultColumn / AutoResult targets, inferable targets (Enum, DateTime zone, DateTime64 precision/zone, Array/Nullable/Map/Tuple of them). Blocks are reference-encoded with per-column unique values. Oracle: reference compatibility relation (compatible -> decodes to the block's values; incompatible -> error naming the column/index; unspecified -> no panic, no foreign data); after any failure every target holds only rows of its own matching column. Non-trivial = >=2 columns or a parameterised type; distinct = (schema, targets, mutation)",
 		Assumptions: []string{"reference compatibility relation as in C19", "block columns carry unique values so ownership of a row is decidable"},
 		MinDistinct: 300,
 	}
